@@ -99,6 +99,38 @@ impl<'a> GeneratorState<'a> {
         };
         let mut cycles_alt = None;
 
+        // Read-modify-write instructions can't work on memory with separate read and write ports
+        if mnemonic == INC
+            || mnemonic == DEC
+            || mnemonic == ASL
+            || mnemonic == LSR
+            || mnemonic == ROL
+            || mnemonic == ROR
+        {
+            let variable = match operand {
+                ExprType::Absolute(variable, _, _) => Some(variable),
+                ExprType::AbsoluteX(variable) => Some(variable),
+                ExprType::AbsoluteY(variable) => Some(variable),
+                _ => None,
+            };
+            if let Some(variable) = variable {
+                let v = self.compiler_state.get_variable(variable);
+                let split_ports = match v.memory {
+                    VariableMemory::Superchip => true,
+                    VariableMemory::MemoryOnChip(_) => {
+                        self.bankswitching_scheme == "3E" || self.bankswitching_scheme == "3EP"
+                    }
+                    _ => false,
+                };
+                if split_ports {
+                    return Err(self.compiler_state.syntax_error(
+                        "Read-modify-write operations are not possible on memory with separate read and write ports",
+                        pos,
+                    ));
+                }
+            }
+        }
+
         match operand {
             ExprType::Label(l) => {
                 nb_bytes = match mnemonic {
